@@ -225,5 +225,135 @@ func genC06(repo string) (string, error) {
 	}
 	fmt.Fprintf(&b, "def fastSigned : List String := %s\n", leanStrList(signed))
 	fmt.Fprintf(&b, "def fastUnsigned : List String := %s\n", leanStrList(unsigned))
+	if err := genC06Merge(repo, &b); err != nil {
+		return "", err
+	}
 	return b.String(), nil
+}
+
+// genC06Merge: the shape of merge.Op (what Pull pops, the whole-batch emission rule, the fall back to
+// a zbuf puller over Read, what Read takes, the heap order) and the value limit of that puller.
+func genC06Merge(repo string, b *strings.Builder) error {
+	mf, err := parseFile(repo, "runtime/sam/op/merge/merge.go")
+	if err != nil {
+		return err
+	}
+	pull, err := mf.funcDecl("Op", "Pull")
+	if err != nil {
+		return err
+	}
+	// the statements from `min := heap.Pop(o).(*puller)` on
+	var tail []ast.Stmt
+	for i, s := range pull.Body.List {
+		if renderStmt(mf, s) == "min := heap.Pop(o).(*puller)" {
+			tail = pull.Body.List[i:]
+			break
+		}
+	}
+	if len(tail) != 4 {
+		return fmt.Errorf("%s: merge.Op.Pull: expected `min := heap.Pop(o).(*puller)` followed by three statements", mf.pos(pull))
+	}
+	is, ok := tail[1].(*ast.IfStmt)
+	if !ok || is.Else != nil || is.Init != nil {
+		return fmt.Errorf("%s: merge.Op.Pull: emission rule `if` not recognised", mf.pos(tail[1]))
+	}
+	fmt.Fprintf(b, "def mergeBatchRule : String := %s\n", leanStr(renderExpr(mf, is.Cond)))
+	var body []string
+	for _, s := range is.Body.List {
+		if _, isIf := s.(*ast.IfStmt); isIf {
+			x := s.(*ast.IfStmt)
+			body = append(body, "if "+renderExpr(mf, x.Cond))
+			continue
+		}
+		body = append(body, renderStmt(mf, s))
+	}
+	fmt.Fprintf(b, "def mergeBatchBody : List String := %s\n", leanStrList(body))
+	fmt.Fprintf(b, "def mergeReadPath : List String := %s\n", leanStrList([]string{renderStmt(mf, tail[2]), renderStmt(mf, tail[3])}))
+	// the guard before the pop: EOS exactly when the heap is empty
+	var eos string
+	for _, s := range pull.Body.List {
+		if x, ok := s.(*ast.IfStmt); ok && renderExpr(mf, x.Cond) == "o.Len() == 0" {
+			var rs []string
+			for _, y := range x.Body.List {
+				rs = append(rs, renderStmt(mf, y))
+			}
+			eos = strings.Join(rs, "; ")
+		}
+	}
+	fmt.Fprintf(b, "def mergeEos : String := %s\n", leanStr(eos))
+	read, err := mf.funcDecl("Op", "Read")
+	if err != nil {
+		return err
+	}
+	var reads []string
+	for _, s := range read.Body.List {
+		if x, ok := s.(*ast.IfStmt); ok {
+			reads = append(reads, "if "+renderExpr(mf, x.Cond))
+			continue
+		}
+		reads = append(reads, renderStmt(mf, s))
+	}
+	fmt.Fprintf(b, "def mergeRead : List String := %s\n", leanStrList(reads))
+	less, err := mf.funcDecl("Op", "Less")
+	if err != nil {
+		return err
+	}
+	le, ok := singleReturn(less.Body.List)
+	if !ok {
+		return fmt.Errorf("%s: merge.Op.Less is not a single return", mf.pos(less))
+	}
+	fmt.Fprintf(b, "def mergeLess : String := %s\n", leanStr(renderExpr(mf, le)))
+	// zbuf: value limit of NewPuller batches
+	zf, err := parseFile(repo, "zbuf/batch.go")
+	if err != nil {
+		return err
+	}
+	limit := int64(-1)
+	for _, d := range zf.f.Decls {
+		gd, ok := d.(*ast.GenDecl)
+		if !ok {
+			continue
+		}
+		for _, sp := range gd.Specs {
+			vs, ok := sp.(*ast.ValueSpec)
+			if !ok {
+				continue
+			}
+			for i, n := range vs.Names {
+				if n.Name == "PullerBatchValues" && i < len(vs.Values) {
+					if v, ok := intLit(vs.Values[i]); ok {
+						limit = v
+					}
+				}
+			}
+		}
+	}
+	if limit < 0 {
+		return fmt.Errorf("%s: PullerBatchValues is not an integer literal", zf.path)
+	}
+	fmt.Fprintf(b, "def pullerBatchValues : Nat := %d\n", limit)
+	av, err := zf.funcDecl("pullerBatch", "appendVal")
+	if err != nil {
+		return err
+	}
+	full, ok := singleReturn(av.Body.List[len(av.Body.List)-1:])
+	if !ok {
+		return fmt.Errorf("%s: appendVal does not end in a return", zf.pos(av))
+	}
+	fmt.Fprintf(b, "def pullerBatchFull : String := %s\n", leanStr(renderExpr(zf, full)))
+	np, err := zf.funcDecl("", "newPullerBatch")
+	if err != nil {
+		return err
+	}
+	capExpr := ""
+	ast.Inspect(np, func(n ast.Node) bool {
+		if kv, ok := n.(*ast.KeyValueExpr); ok {
+			if k, ok := identName(kv.Key); ok && k == "vals" {
+				capExpr = renderExpr(zf, kv.Value)
+			}
+		}
+		return true
+	})
+	fmt.Fprintf(b, "def pullerBatchCap : String := %s\n", leanStr(capExpr))
+	return nil
 }
